@@ -11,7 +11,7 @@ use vmodel::{
 
 use super::{
     common::{pick, unhex},
-    lockstep::{case_json, replay_lockstep, run_case, Case, Flags},
+    lockstep::{case_json, replay_lockstep, run_case, Flags},
     declcommon::{self, Servers},
     Check, PrepError, DEFAULT,
 };
@@ -284,65 +284,9 @@ const SESSION_FLAGS: Flags = Flags {
     complete: true,
 };
 
-/// Several completions on one Cli: what Tab does depends on the line and the cursor in front of it, not on what was
-/// completed, typed, erased, submitted or recalled before. Rounds: erase the line and type a word (then move left) and press
-/// Tab; or recall with Up and press Tab; or submit.
-fn tab_session_strategy() -> impl Strategy<Value = Case> {
-    let words = vec![
-        "g", "ge", "get", "get-", "get-l", "get-a", "e", "ex", "exi", "exit", "s", "se", "set", "set ", "n", "ne", "net", "h", "he", "hel", "help", "э", "эх", "go", "go-", "hell", "hello", "с", "ст", "сто", "ста", "a", "at", "x", "sec",
-    ];
-    let round = (0u8..10, any::<u16>(), 0usize..2, 0usize..3, 0usize..4);
-    (
-        prop_oneof![Just("enum"), Just("group"), Just("group")],
-        prop_oneof![Just(4usize), Just(5), Just(6), Just(7), Just(8), Just(10), Just(12), Just(16), Just(32)],
-        prop_oneof![Just(0usize), Just(16), Just(48)],
-        0usize..5,
-        proptest::collection::vec(round, 1..6),
-    )
-        .prop_map(move |(set, cap, hist, prompt, rounds)| {
-            let mut ops: Vec<vmodel::session::Op> = Vec::new();
-            use vmodel::session::Op;
-            for (i, (kind, w, lead, trail, lefts)) in rounds.into_iter().enumerate() {
-                match kind {
-                    0 if i > 0 => {
-                        ops.push(Op::Up);
-                        ops.push(Op::Tab);
-                    }
-                    1 if i > 0 => ops.push(Op::Enter),
-                    _ => {
-                        if i > 0 {
-                            // erase whatever the line holds
-                            for _ in 0..12 {
-                                ops.push(Op::Right);
-                            }
-                            for _ in 0..24 {
-                                ops.push(Op::Backspace);
-                            }
-                        }
-                        ops.push(Op::Text(format!("{}{}{}", " ".repeat(lead), pick(&words, w), " ".repeat(trail))));
-                        for _ in 0..lefts {
-                            ops.push(Op::Left);
-                        }
-                        ops.push(Op::Tab);
-                    }
-                }
-            }
-            Case {
-                cfg: vmodel::session::Config {
-                    cmd_buf: cap,
-                    hist_buf: hist,
-                    prompt,
-                    set: set.to_string(),
-                    ..Default::default()
-                },
-                ops,
-            }
-        })
-}
-
 fn run_shard(ctx: &ShardCtx) {
     run_macro_half(ctx);
-    ctx.run_prop("tab-session", ctx.tier.pick(400_000, 4_000_000), tab_session_strategy(), case_json, |c| match run_case(c, SESSION_FLAGS) {
+    ctx.run_prop("tab-session", ctx.tier.pick(400_000, 4_000_000), super::lockstep::tab_session_strategy(false), case_json, |c| match run_case(c, SESSION_FLAGS) {
         Ok(stats) => {
             for _ in 0..stats.skipped_unspecified {
                 ctx.skipped();
